@@ -102,3 +102,12 @@ func specBodyAppendTo(b Body, dst []byte) (result []byte) { return nil }
 //@ ensures [len]    len(result) == len(old(dst)) + len(r.body)
 //@ ensures [prefix] forall j :: 0 <= j && j < len(old(dst)) ==> result[j] == old(dst)[j]
 //@ ensures [bytes]  forall j :: 0 <= j && j < len(r.body) ==> result[len(old(dst))+j] == old(r.body)[j]
+
+// --- C12: the tree body's serializer never hands out its memoized encoding ---
+
+//@ func (*treeBody).AppendTo
+//@ nosafety nil-deref nil-iface
+//@ requires t != nil
+//@ modifies dst, t.enc
+//@ ensures [own]    fresh(result) || result == nil || zzSameSlice(result[:0], old(dst)[:0])
+//@ ensures [prefix] forall j :: 0 <= j && j < len(old(dst)) ==> result[j] == old(dst)[j]
